@@ -167,3 +167,14 @@ PROFILES["C17"]["scenarios"] = [s1(quick_runs=1500, quick_budget_s=30), s1("C17b
 
 # C13: the partition half (profile C13) and the fault-free half (profile C13b)
 PROFILES["C13"]["scenarios"] = [s1(quick_runs=1800, quick_budget_s=35), s1("C13b", quick_runs=900, quick_budget_s=20, thorough_budget_s=600)]
+
+# C07's last clause ("a non-voter or absent server is never counted in elections or commitment") is also what C05's
+# commit oracles observe: the C07 check runs the non-voter profile and the commitment table as well and reports
+# those classes as its own (added after seeded change C07-c, which keeps a demoted voter in the commitment tracker).
+PROFILES["C07"]["scenarios"] = PROFILES["C07"]["scenarios"] + [s1("C05", quick_runs=600, quick_budget_s=15, thorough_budget_s=400),
+                                                               {"scenario": "AUX05", "profile": "AUX05", "quick_runs": 27 + 24, "quick_budget_s": 25, "thorough_runs": 27 + 20000, "thorough_budget_s": 300}]
+PROFILES["C07"]["also_report"] = ["C05/commit-without-voter-majority", "C05/arith-commit-index-wrong", "C05/arith-commit-without-majority"]
+
+# C01's third observation (DESIGN §7 C01 (c)): one voter never grants two candidates in one term, over all its
+# incarnations; the oracle files it under C06, the C01 check reports it as its own as well.
+PROFILES["C01"]["also_report"] = ["C06/two-grants-in-term"]
